@@ -126,7 +126,9 @@ Notation "'do' x <- e ; f" := (match e with inl x => f | inr e' => inr e' end)
 Record env := mkEnv {
   e_liq : Z;                       (* liquidity of a position re-created by AddToPosition / AddToConcentratedLiquiditySuperfluidPosition *)
   e_shares : Z;                    (* concentrated lockup shares minted for the re-created locked position *)
-  e_exit : list (list (dk * Z)) }. (* UnPoolWhitelistedPool: per exited lock, the coins the pool paid out *)
+  e_exit : list (Z * Z * list (dk * Z)) }.
+      (* UnPoolWhitelistedPool: the sender's locks of the pool's shares in the order the store iterator yields them,
+         each with its remaining duration and the coins ExitPool paid for its shares *)
 
 (* ------------------------------------------------------------------------------------------ *)
 (* bank                                                                                       *)
@@ -472,7 +474,7 @@ Fixpoint lock_and_unlock_each (s : state) (owner : addr) (dur : Z) (paid : list 
     let nid := last_lock s + 1 in
     lock_and_unlock_each (set_locks s (locks s ++ [mkLock nid owner None d a dur true SNone None]) nid) owner dur r
   end.
-Definition unpool_one (s : state) (sender : addr) (share : dk) (id : Z) (paid : list (dk * Z)) : res state :=
+Definition unpool_one (s : state) (sender : addr) (share : dk) (id dur : Z) (paid : list (dk * Z)) : res state :=
   match find_lock s id with
   | None => inr EOther
   | Some l =>
@@ -484,24 +486,28 @@ Definition unpool_one (s : state) (sender : addr) (share : dk) (id : Z) (paid : 
                 | Some _ => do r <- undelegate_common s sender id; inl (fst r)
                 | None => inl s end);
       let s2 := force_unlock (set_synth s1 id SNone) (with_sf l SNone None) in
-      (* ExitPool pays [paid] to the sender, who locks each coin again and starts unlocking it *)
-      inl (lock_and_unlock_each s2 sender (l_dur l) paid)
+      (* ExitPool pays [paid] to the sender, who locks each coin again for the remaining duration and starts unlocking it *)
+      inl (lock_and_unlock_each s2 sender dur paid)
   end.
-Fixpoint unpool_all (s : state) (sender : addr) (share : dk) (ids : list Z) (paid : list (list (dk * Z))) : res state :=
-  match ids with
+Fixpoint unpool_all (s : state) (sender : addr) (share : dk) (todo : list (Z * Z * list (dk * Z))) : res state :=
+  match todo with
   | [] => inl s
-  | id :: r => do s1 <- unpool_one s sender share id (hd [] paid); unpool_all s1 sender share r (tl paid)
+  | (id, dur, paid) :: r => do s1 <- unpool_one s sender share id dur paid; unpool_all s1 sender share r
   end.
 Definition share_of_pool (s : state) (pool : Z) : option dk :=
   match find (fun x => snd x =? pool) (gamm_shares s) with Some x => Some (fst x) | None => None end.
+(* the iteration order comes from [e]; it has to enumerate exactly the sender's locks of that denom *)
+Definition is_enumeration (order own : list Z) : bool :=
+  nodupz order && (Nat.eqb (length order) (length own)) && forallb (fun i => memz i own) order.
 (* msg_server.go UnPoolWhitelistedPool *)
 Definition sf_unpool (e : env) (s : state) (sender : addr) (pool : Z) : res state :=
   if negb (memz pool (unpool_allowed s)) then inr EOther           (* checkUnpoolWhitelisted *)
   else match share_of_pool s pool with
   | None => inr EOther
   | Some share =>
-    unpool_all s sender share
-      (map l_id (filter (fun l => (l_owner l =? sender) && dk_eqb (l_denom l) share) (locks s))) (e_exit e)
+    let own := map l_id (filter (fun l => (l_owner l =? sender) && dk_eqb (l_denom l) share) (locks s)) in
+    if negb (is_enumeration (map (fun x => fst (fst x)) (e_exit e)) own) then inr EOther
+    else unpool_all s sender share (e_exit e)
   end.
 
 Definition pool_of_cl_share (s : state) (d : dk) : option Z :=
